@@ -265,6 +265,23 @@ pub fn c01(tier: Tier) -> ! {
                         }
                     }
                 }
+                // sites near the middle of the cell (where the copies made by glides and two-fold
+                // axes sit on the cell faces), every orientation, a fine ladder of cell sizes
+                // around the size at which copies half a cell apart start to touch
+                for &ratio in [1., 0.8].iter() {
+                    let mut l = 4.4 * r / ratio;
+                    while l > 1.2 * r {
+                        for &x in [0., 0.03, -0.05].iter() {
+                            for &y in [-0.17, 0.08, 0.33].iter() {
+                                for &phi in phis.iter() {
+                                    let p = Params { length: l, ratio, angle: PI / 2., x, y, phi };
+                                    c01_eval(&tpl, group, spec, &body, &p, &mut out, "mid-cell sites");
+                                }
+                            }
+                        }
+                        l *= 0.985;
+                    }
+                }
                 // two occupied general sites (the library accepts any list of sites): the second
                 // site near the first one's images across a cell face, and at generic offsets
                 let general = wyckoff_json(group);
@@ -741,7 +758,7 @@ pub fn c03(tier: Tier) -> ! {
         let n = ita_ops(group).len();
         let r = body.enclosing_radius();
         let ratios = tier.pick(vec![1., 0.7, 0.4], vec![1., 0.85, 0.7, 0.55, 0.4]);
-        let angles: Vec<f64> = if ita_family(group) == "Monoclinic" { tier.pick(vec![PI / 2., 1.2, 2.1], vec![PI / 2., 1.2, PI / 3., 2.1, 2.5]) } else { vec![PI / 2.] };
+        let angles: Vec<f64> = if ita_family(group) == "Monoclinic" { tier.pick(vec![PI / 2., 1.2, 2.1, PI / 2. - 5e-4], vec![PI / 2., 1.2, PI / 3., 2.1, 2.5, PI / 2. - 5e-4, PI / 2. + 2e-5]) } else { vec![PI / 2.] };
         let xs = tier.pick(vec![-0.4, -0.25, 0.1, 0.37, 0.5], vec![-0.5, -0.4, -0.25, -0.1, 0., 0.1, 0.2, 0.37, 0.49, 0.5]);
         let phis = tier.pick(vec![0., 0.3, 2.5], vec![0., 0.3, 1.2, 2.5, 4., 5.9]);
         let mut evals = 0u64;
